@@ -385,6 +385,36 @@ func framePos(f, n int) string {
 	}
 }
 
+// handshake runs MakeSecretConnection on both ends concurrently and checks the
+// authenticated keys.  ok = false: verdict already recorded, the caller cleans up.
+func handshake(c *ev.Case, endA, endB io.ReadWriteCloser, prvA, prvB chainkd.XPrv, watchdogFired func() bool, fragAB, fragBA int) (scA, scB *connection.SecretConnection, ok bool) {
+	var hsErrA, hsErrB error
+	var wg sync.WaitGroup
+	wg.Add(2)
+	go func() { defer wg.Done(); scA, hsErrA = connection.MakeSecretConnection(endA, prvA) }()
+	go func() { defer wg.Done(); scB, hsErrB = connection.MakeSecretConnection(endB, prvB) }()
+	wg.Wait()
+	if watchdogFired() {
+		c.Inconclusive("%s case %d: watchdog fired during the handshake", c.Group, c.Index)
+		return nil, nil, false
+	}
+	if hsErrA != nil || hsErrB != nil || scA == nil || scB == nil {
+		c.Violation("handshake:fails-on-clean-transport", "MakeSecretConnection failed between two honest ends over a loss-free transport",
+			map[string]interface{}{"errA": fmt.Sprint(hsErrA), "errB": fmt.Sprint(hsErrB), "frag_ab": fragAB, "frag_ba": fragBA})
+		return nil, nil, false
+	}
+	c.Count("handshakes", 1)
+	pubA, pubB := prvA.XPub().PublicKey(), prvB.XPub().PublicKey()
+	if !bytes.Equal(scA.RemotePubKey(), pubB) || !bytes.Equal(scB.RemotePubKey(), pubA) {
+		c.Violation("RemotePubKey:mismatch", "RemotePubKey differs from the key the peer authenticated with",
+			map[string]interface{}{"pubA": hex.EncodeToString(pubA), "pubB": hex.EncodeToString(pubB),
+				"A.RemotePubKey": hex.EncodeToString(scA.RemotePubKey()), "B.RemotePubKey": hex.EncodeToString(scB.RemotePubKey())})
+	} else {
+		c.Count("remote_pubkey_checked", 2)
+	}
+	return scA, scB, true
+}
+
 // session runs one connected pair.  corrupt = nil: clean transport.
 func session(c *ev.Case, withCorruption bool) {
 	r := c.Rand
@@ -434,31 +464,10 @@ func session(c *ev.Case, withCorruption bool) {
 	watchdogFired := func() bool { wdMu.Lock(); defer wdMu.Unlock(); return fired }
 
 	// --- handshake -------------------------------------------------------
-	var scA, scB *connection.SecretConnection
-	var hsErrA, hsErrB error
-	var wg sync.WaitGroup
-	wg.Add(2)
-	go func() { defer wg.Done(); scA, hsErrA = connection.MakeSecretConnection(endA, prvA) }()
-	go func() { defer wg.Done(); scB, hsErrB = connection.MakeSecretConnection(endB, prvB) }()
-	wg.Wait()
-	if watchdogFired() {
-		c.Inconclusive("%s case %d: watchdog fired during the handshake", c.Group, c.Index)
-		return
-	}
-	if hsErrA != nil || hsErrB != nil || scA == nil || scB == nil {
-		c.Violation("handshake:fails-on-clean-transport", "MakeSecretConnection failed between two honest ends over a loss-free transport",
-			map[string]interface{}{"errA": fmt.Sprint(hsErrA), "errB": fmt.Sprint(hsErrB), "frag_ab": dirs[0].frag, "frag_ba": dirs[1].frag})
+	scA, scB, ok := handshake(c, endA, endB, prvA, prvB, watchdogFired, dirs[0].frag, dirs[1].frag)
+	if !ok {
 		closeAll()
 		return
-	}
-	c.Count("handshakes", 1)
-	pubA, pubB := prvA.XPub().PublicKey(), prvB.XPub().PublicKey()
-	if !bytes.Equal(scA.RemotePubKey(), pubB) || !bytes.Equal(scB.RemotePubKey(), pubA) {
-		c.Violation("RemotePubKey:mismatch", "RemotePubKey differs from the key the peer authenticated with",
-			map[string]interface{}{"pubA": hex.EncodeToString(pubA), "pubB": hex.EncodeToString(pubB),
-				"A.RemotePubKey": hex.EncodeToString(scA.RemotePubKey()), "B.RemotePubKey": hex.EncodeToString(scB.RemotePubKey())})
-	} else {
-		c.Count("remote_pubkey_checked", 2)
 	}
 	for _, d := range dirs {
 		d.hsBytes, _, _ = d.pipe.stats()
@@ -479,6 +488,7 @@ func session(c *ev.Case, withCorruption bool) {
 	var wShort [2]string
 	var readerGone [2]bool
 	var rgMu sync.Mutex
+	var wg sync.WaitGroup
 	wg.Add(4)
 	for i := 0; i < 2; i++ {
 		i := i
@@ -574,6 +584,9 @@ func session(c *ev.Case, withCorruption bool) {
 						"frag": d.frag, "buf": bufRegimes[d.regime]})
 			case o.delivered != len(d.want):
 				c.Violation("clean:incomplete", "reader stopped before all bytes", map[string]interface{}{"delivered": o.delivered, "sent": len(d.want)})
+			case o.n0 > 0:
+				// complete only because the monitor re-synchronised after (0, nil) returns (each one is a violation)
+				c.Count("directions_complete_after_resync", 1)
 			default:
 				c.Count("directions_exact", 1)
 			}
@@ -697,21 +710,26 @@ func TestC32(t *testing.T) {
 	defer r.Finish()
 	r.Rule("one case = one session of two real MakeSecretConnection ends over a seeded fragmenting duplex, both directions concurrently, 1-6 messages per direction " +
 		"with sizes around the 1024-byte frame payload (0, 1, F-1, F, F+1, kF-1, kF, kF+1, 5000, random), reader buffers 1..2000 in six regimes, transport reads of 1..k bytes; " +
-		"corrupt sessions flip one ciphertext byte (tag / length / data / padding region of a chosen frame) after the handshake. " +
-		"distinct = (message size class, ciphertext fragment class, reader buffer regime) per message, and (corrupted region, frame position, fragment class, buffer regime) per corruption")
+		"corrupt sessions flip one ciphertext byte (tag / length / data / padding region of a chosen frame) after the handshake; " +
+		"trusting sessions read one direction through io.ReadFull or a bufio.Reader (consumers that trust n) behind a spy on the raw Read return values. " +
+		"distinct = (message size class, ciphertext fragment class, reader buffer regime) per message, and (corrupted region, frame position, fragment class, buffer regime) per corruption, (consumer, message size class, fragment class, buffer class) per trusting message")
 	r.Assume("the harness transport is a loss-free ordered byte stream (self-checked in group transport-selfcheck)")
 	r.Assume("frame model used only to place the corruption and its plaintext boundary: Write seals <=1024-byte chunks in order into 1042-byte frames (validated against transport byte counts: counter frame_model_mismatch must stay 0)")
 	r.Assume("io.Reader contract: Read on a non-empty buffer returns n > 0 or a non-nil error; bytes are delivered only through buf[:n]")
 
 	r.Cases("transport-selfcheck", r.N(40, 400), transportSelfCheck)
-	r.Cases("stream", r.N(1200, 28000), func(c *ev.Case) { session(c, false) })
-	r.Cases("corrupt", r.N(500, 12000), func(c *ev.Case) { session(c, true) })
+	r.Cases("trusting", r.N(300, 8000), trustingSession)
+	r.Cases("stream", r.N(1400, 100000), func(c *ev.Case) { session(c, false) })
+	r.Cases("corrupt", r.N(600, 40000), func(c *ev.Case) { session(c, true) })
 
 	r.Floor("transport_selfcheck_ok", 40)
-	r.Floor("sessions_clean", 1000)
-	r.Floor("sessions_corrupt", 400)
+	r.Floor("sessions_clean", 1200)
+	r.Floor("sessions_corrupt", 500)
+	r.Floor("trusting_sessions", 250)
+	r.Floor("trusting_consumer_io.ReadFull", 80)
+	r.Floor("trusting_consumer_bufio.Reader", 80)
 	r.Floor("remote_pubkey_checked", 1000)
-	r.Floor("directions_exact", 500)
+	r.Floor("directions_exact", 200)
 	r.Floor("frames", 2000)
 	r.Floor("bytes_delivered", 1000000)
 	r.Floor("directions_buffer_smaller_than_frame", 200)
@@ -719,7 +737,7 @@ func TestC32(t *testing.T) {
 	r.Floor("directions_ciphertext_coalesced", 100)
 	r.Floor("messages_multi_frame", 500)
 	r.Floor("messages_empty", 50)
-	r.Floor("corruptions_detected", 400)
+	r.Floor("corruptions_detected", 500)
 	for _, reg := range []string{"tag", "len", "data", "padding"} {
 		r.Floor("corrupt_region_"+reg, 20)
 	}
